@@ -39,11 +39,12 @@ NOTES = "Exit codes: 0 all obligations discharged; 1 VIOLATION (a named obligati
 
 PROPS["C12"] = {
     "level": "proof",
-    "technique": "Verus soundness contract on the extracted evaluate_against_stats (every arm, And/Or/Not recursion) against row semantics over an abstract totally pre-ordered key domain; Kani complete harnesses for the numeric leaf comparators on the real serde_json::Value",
+    "technique": "Verus soundness contracts on the extracted QueryEngine::convert_expr_to_predicate and convert_scalar_to_predicate_value over a DataFusion Expr shim (whenever a predicate is produced, every row the WHERE expression accepts satisfies it: comparisons, BETWEEN / NOT BETWEEN, IN / NOT IN, AND, OR, NOT at every depth); Verus soundness contract on the extracted evaluate_against_stats (every arm, And/Or/Not recursion) against row semantics over an abstract totally pre-ordered key domain; Kani complete harnesses for the numeric leaf comparators on the real serde_json::Value",
     "verus": ["c12_pruning.rs.in"],
     "kani": ["c12_leaves"],
     "explanation": "",
     "assumptions": [
+        "DataFusion Expr / BinaryExpr / Between / InList / Column / Operator / ScalarValue have the shapes of the shim enum (other variants are opaque and must convert to None); comparisons with the column on the right-hand side are not pushed down; iter().map(f).collect::<Option<Vec<_>>>() is Some of the element-wise results or None",
         "HashMap::get returns the entry stored under the key (shim StatsMap)",
         "Iterator::any over a slice = exists over its elements (combinator shim; the closure body is verified as lifted real text)",
         "the key order of each type family is a total preorder; row values are compared through the literal's family (DataFusion casts an integer column to double for a float literal); chunk statistics are true minima / maxima under each accessor (monotone accessors)",
